@@ -53,9 +53,11 @@ class Ctx:
         self.inventory = {}
         self.assumptions = []
         self.cur_rule = None
+        self.config_suffix = ""
 
     # ----------------------------------------------------------------- facts
     def facts(self, config):
+        config = config + self.config_suffix
         f = factsmod.get(config, self.repo)
         self.configs[config] = {
             "cfgs": f.meta["cfgs"],
